@@ -11,6 +11,10 @@ NAMES = ['a', 'a1', 'b', 'c', 'x12']          # python string order = rank order
 RANK = {n: i + 1 for i, n in enumerate(sorted(NAMES))}
 
 
+class _NotEncodable(Exception):
+    """coefficients left the range the trace format represents (not an error of the library)"""
+
+
 def run_job(job):
     import sympy
     import kdriver as K            # noqa: F401  (puts $KINGDON_SRC first on the path)
@@ -21,7 +25,7 @@ def run_job(job):
     def frac(c):
         f = Fraction(c)
         if f.denominator > 64 or abs(f.numerator) > 10 ** 6:
-            raise ValueError('coefficient out of range')
+            raise _NotEncodable()
         return [f.numerator, f.denominator]
 
     def encP(p):
@@ -129,13 +133,15 @@ def run_job(job):
                 ev['hassym'] = True
             except (ZeroDivisionError, KeyError, AttributeError):
                 pass
+        except _NotEncodable:
+            return None, (r if isinstance(r, (Polynomial, RationalPolynomial)) else None)
         except ZeroDivisionError:
             ev['raised'] = 'ZeroDivisionError'
             r = None
         except Exception as e:   # noqa: BLE001
             ev['raised'] = type(e).__name__
             r = None
-        ev['a_after'] = enc(a)[1]
+        ev['a_after'] = enc(a)[1]   # (operands were encodable before the call)
         if b is not None and not ev['bnum']:
             ev['b_after'] = enc(b)[1]
         if ev['raised'] == 'ZeroDivisionError':
@@ -150,7 +156,7 @@ def run_job(job):
                 ev, _ = record(f"{job['prefix']}:s{i}.{op}", op, P_, Q_ if op != 'neg' else None)
                 if ev:
                     events.append(ev)
-            except (ValueError, TypeError):
+            except (_NotEncodable, TypeError):
                 pass
     # (2) random walks over a pool of both classes (beyond the model's bounds)
     for w in range(job.get('walks', 0)):
@@ -173,7 +179,9 @@ def run_job(job):
                 n = rng.choice([0, 1, 2, 3, 5] + ([-1, -2] if isinstance(a, RationalPolynomial) else []))
             try:
                 ev, r = record(f"{job['prefix']}:w{w}.{s}", op, a, b, n)
-            except (ValueError, TypeError) as e:
+            except _NotEncodable:
+                continue
+            except TypeError as e:
                 events.append({'id': f"{job['prefix']}:w{w}.{s}", 'kind': 'poly', 'malformed': str(e)[:100], 'op': op})
                 continue
             if ev:
@@ -185,7 +193,7 @@ def run_job(job):
                     undefined = isinstance(r, RationalPolynomial) and r.denom == 0       # result of dividing by the zero function
                     if size <= 8 and not undefined:
                         pool.append(r)
-                except (ValueError, TypeError):
+                except (_NotEncodable, ValueError, TypeError):
                     pass
             if len(pool) > 14:
                 pool.pop(rng.randrange(len(pool)))
